@@ -71,6 +71,7 @@ def obligations(tier, seed):
                         r_old = P.ref(args, vals)
                         lhs.append(w); rhs.append(r_new.score - r_old.score)
                         lhs.append(tr2.get_score()); rhs.append(r_new.score)
+                        lhs.append(PG.norm_ret(P, tr2.get_retval())); rhs.append(PG.norm_ret(P, r_new.retval))
                     if not resample:
                         # backward constraint: exactly the previous values at the overwritten addresses.
                         # overwritten = constrained, present before and after; an address absent before has no
